@@ -315,3 +315,7 @@ pub mod verif_remote;
 #[cfg(feature = "verif-hooks")]
 #[doc(hidden)]
 pub mod verif_netreport;
+
+#[cfg(feature = "verif-hooks")]
+#[doc(hidden)]
+pub mod verif_tls;
